@@ -192,6 +192,21 @@ def bit_order(repo: Repo, R):
             f"{'MSB' if facts['bus_dir'] == -1 else 'LSB'}-first and concat parts {'left to right' if facts['concat_dir'] == 1 else 'right to left'} "
             f"⇒ parts must be emitted {'in order' if need == 1 else 'reversed'}",
             why="Concat(x, y) on a 2-bit port netlists x on bit 1 and y on bit 0: bit i of the connection does not reach bit i of the port")
+    # ... every part the same way: each exported part is the part the (one) loop over `parts` stands on, whatever its kind —
+    # a part handled by a loop of its own (a nested Concat written inline) has an order of its own
+    ca = fi.node.args.args[0].arg
+    appends = [c for c in au.calls_in(fi.node) if isinstance(c.func, ast.Attribute) and c.func.attr in ("append", "extend", "add") and ast.unparse(c.func.value).endswith(".parts")]
+    odd = []
+    for c in appends:
+        loops_ = [l for l in shared.enclosing_all(fi.node, c, (ast.For,))]
+        outer_ = [l for l in loops_ if f"{ca}.parts" in ast.unparse(shared.prov(fi.node, l.iter))]
+        if len(loops_) != 1 or len(outer_) != 1:
+            odd.append(f"`{ast.unparse(c)[:50]}` under {len(loops_)} loop(s)")
+        elif shared.path_conditions(fi.node, c) and any("isinstance" in ast.unparse(t) for t, _p in shared.path_conditions(fi.node, c)):
+            odd.append(f"`{ast.unparse(c)[:50]}` only for some kinds of part")
+    if appends:
+        R.check(not odd, rule, key_of(fi, "every-part-alike"), fi.site, "export_concat writes each part once, from the one loop over the parts, whatever its kind" if not odd else f"export_concat treats some parts separately: {odd}",
+                why="a nested concatenation written inline in its own (forward) order comes out part-swapped: Concat(Concat(a, b)[:], c) is exported as b, a, c")
     # --- (iii) importer mirrors (i) and (ii)
     fi2 = repo.func(F_IMPORT, "import_concat")
     d2 = _parts_loop_direction(fi2, fi2.node.args.args[0].arg)
@@ -711,17 +726,24 @@ def list_slice_index_maps(repo: Repo, R, rule: str):
         alts_ = _sh.alternatives(fi.node, n.value, list(path_conditions(fi.node, n)))
         return bool(alts_) and all(ast.unparse(v) == f"{sl}.parent" for v, _c in alts_)
 
+    unsigned: List[str] = []
     subs = [n for n in au.walk_no_nested(fi.node) if isinstance(n, ast.Subscript) and _is_parent(n) and not any(pol and "== 1" in ast.unparse(t) and "width(" in ast.unparse(t) for t, pol in path_conditions(fi.node, n))]
     for n in subs:
         for val, cds in _sh.alternatives(fi.node, n.slice, list(path_conditions(fi.node, n))):
             sg = _sign_of_branch([(au.expand(t, env), pol) for t, pol in cds])
             if sg is None:
+                unsigned.append(ast.unparse(val))
                 continue
             as_sl = _as_slice(val)
             if as_sl is not None:
                 rests[sg] = (as_sl, cds)
             else:
                 firsts[sg] = val
+    if not firsts and not rests and len(unsigned) >= 2:
+        # the peeling is there, but it is the same for both signs of the step
+        R.check(False, rule, key_of(fi, "first-bit"), fi.site, f"the first/rest peeling (`parent[{unsigned[0]}]`, `parent[{unsigned[1]}]`) does not depend on the sign of the step: a reversed slice is walked upwards",
+                why="a reversed multi-bit slice of a slice or concatenation (`Concat(a, b, c, d)[2:0:-1]`) is emitted in ascending order: widths unchanged, bit i no longer reaches port bit i")
+        return
     if set(firsts) != {1, -1} or set(rests) != {1, -1}:
         raise AnalysisError(f"idiom-unknown: first/rest recursion of {fi.site} not recognised (firsts {sorted(firsts)}, rests {sorted(rests)})")
     f_ok = au.poly_eq(firsts[1], ast.parse(f"{sl}.bot", mode="eval").body) and au.poly_eq(firsts[-1], ast.parse(f"{sl}.top - 1", mode="eval").body)
